@@ -252,6 +252,26 @@ theorem tick_valid : ∀ (s : Shape) (pre m : St s), Tick s pre m → modified s
       · exact Or.inl (tick_valid f pre.1 m.1 h.1 hm)
       · exact Or.inr (tick_valid r pre.2 m.2 h.2 hm)
 
+/-- a cycle without a tick is admitted at every position of every schema (gaps in a history) -/
+theorem tick_clear : ∀ (s : Shape) (st : St s), Tick s st (clear s st)
+  | .ts _, _ => Or.inr rfl
+  | .signal, _ => Or.inr rfl
+  | .tsw _ _, _ => Or.inr rfl
+  | .tss _ _, _ => Or.inl rfl
+  | .tsd _ _ _, _ => Or.inl rfl
+  | .tsl e _, st => by
+      have key : ∀ l : List (St e), All2 (Tick e) l (l.map (clear e)) := by
+        intro l
+        induction l with
+        | nil => trivial
+        | cons c cs ih => exact ⟨tick_clear e c, ih⟩
+      exact key st
+  | .tsb fs, st => ⟨tick_clear fs st, fun h => by
+      have h0 : modified fs (clear fs st) = false := modified_clear fs st
+      exact absurd (h0.symm.trans h) (by decide)⟩
+  | .bnil, _ => trivial
+  | .bcons f r, st => ⟨tick_clear f st.1, tick_clear r st.2⟩
+
 /-! ### the round trip, container by container -/
 
 theorem setApply_coh : ∀ (ps es as rs : List Bool), SetCoh ps es as rs → setApply ps as rs = (es, as, rs)
